@@ -89,11 +89,16 @@ func c20Run(c *fw.Ctx, i int) {
 		c.Inconclusive("server start: %v", err)
 		return
 	}
+	st := &c20Stats{ops: map[string]*int64{}}
 	s.InstallHook(false)
+	// an integrator-style notification handler that calls back into the server's API
+	s.Notify.OnHlsMakeTsHook = func(info base.HlsMakeTsInfo) {
+		s.Lal.StatGroup(info.StreamName)
+		st.inc("api_from_notify_callback")
+	}
 	names := []string{"a", "b", "c"}
 	c.Describe("GOMAXPROCS=%d duration=%v conf=%+v", procs, dur, conf)
 	c.Cell("stress/procs=%d", procs)
-	st := &c20Stats{ops: map[string]*int64{}}
 	deadline := time.Now().Add(dur)
 	disposeAt := deadline.Add(-time.Duration(200+r.Intn(1500)) * time.Millisecond)
 	var disposed int32
@@ -581,7 +586,7 @@ func init() {
 		Batches:            func(string) int { return 16 },
 		CaseTimeout:        func(tier string) time.Duration { return 3 * time.Minute },
 		TimeoutIsViolation: true,
-		Rule: "worker built with -race (checkptr on); one lal server per process with every output enabled (HLS with sub-session hash key, periodic group debug log every second, FLV/TS recording, RTSP, WS-RTSP, relay push to a stub target that refuses every third connection, API); GOMAXPROCS ∈ {1,2,4,16}; liveness sweep every 2–4 s. For 12 s (thorough 40 s) concurrent actors churn on three stream names: 3 RTMP publishers, RTSP publishers over TCP and UDP (one in four sends SETUP requests naming no track of its SDP and goes away), a customize publisher, start_rtp_pub + PS over UDP/TCP (incl. a second TCP connection), 4 subscriber actors (RTMP, HTTP-FLV, WS-FLV, HTTP-TS, RTSP TCP/UDP, HLS playlist+segments, consumers that never read), 3 HLS pollers and a blacklist writer with 1 s entries (every /hls/ request consults and expires the ip blacklist), a relay pull on a name of its own that attaches and is then kicked or stopped, 4 API actors (stat group / all_group / lal_info, kick of listed pub/sub/pull ids, start/stop_relay_pull against an origin that refuses / closes / serves, add_ip_blacklist, web UI); Dispose at a seeded instant 0.2–1.7 s before the actors stop. Oracles: every `WARNING: DATA RACE` block in the child's log whose accesses touch lal or naza frames is a violation (signature = unordered pair of innermost lal/naza functions); `fatal error: concurrent map…`, `send on closed channel`, `all goroutines are asleep` are crashes; ≥3 consecutive API calls timing out (5 s each) while the server runs, Dispose not returning within 20 s, or a case exceeding its watchdog are deadlock violations with the goroutine dump; so is a goroutine that, after Dispose returned and all peers are gone, waits for a lal mutex in two dumps 2.5 s apart (a teardown that never completes). cell = GOMAXPROCS.",
+		Rule: "worker built with -race (checkptr on); one lal server per process with every output enabled (HLS with sub-session hash key, periodic group debug log every second, FLV/TS recording, RTSP, WS-RTSP, relay push to a stub target that refuses every third connection, API); GOMAXPROCS ∈ {1,2,4,16}; liveness sweep every 2–4 s. For 12 s (thorough 40 s) concurrent actors churn on three stream names: 3 RTMP publishers, RTSP publishers over TCP and UDP (one in four sends SETUP requests naming no track of its SDP and goes away), a customize publisher, start_rtp_pub + PS over UDP/TCP (incl. a second TCP connection), 4 subscriber actors (RTMP, HTTP-FLV, WS-FLV, HTTP-TS, RTSP TCP/UDP, HLS playlist+segments, consumers that never read), 3 HLS pollers and a blacklist writer with 1 s entries (every /hls/ request consults and expires the ip blacklist), a relay pull on a name of its own that attaches and is then kicked or stopped, a notification handler that calls the stat API from inside OnHlsMakeTs, 4 API actors (stat group / all_group / lal_info, kick of listed pub/sub/pull ids, start/stop_relay_pull against an origin that refuses / closes / serves, add_ip_blacklist, web UI); Dispose at a seeded instant 0.2–1.7 s before the actors stop. Oracles: every `WARNING: DATA RACE` block in the child's log whose accesses touch lal or naza frames is a violation (signature = unordered pair of innermost lal/naza functions); `fatal error: concurrent map…`, `send on closed channel`, `all goroutines are asleep` are crashes; ≥3 consecutive API calls timing out (5 s each) while the server runs, Dispose not returning within 20 s, or a case exceeding its watchdog are deadlock violations with the goroutine dump; so is a goroutine that, after Dispose returned and all peers are gone, waits for a lal mutex in two dumps 2.5 s apart (a teardown that never completes). cell = GOMAXPROCS.",
 		Assumptions: []string{"GORACE=halt_on_error=0 exitcode=0 so that one report does not hide the rest", "a race between two harness-only frames is a harness fault, not a finding"},
 		MinCells: 2,
 		Run:      c20Run,
